@@ -7,8 +7,8 @@
          if ":/" in path:
              scheme = urllib.parse.urlsplit(path).scheme
              if scheme == "file":
-                 return "file://" + path_processor.join(new_dir,
-                            *os.path.relpath(urllib.parse.unquote(path[7:]), old_dir).split(os.path.sep))
+                 return "file://" + urllib.parse.quote(path_processor.join(new_dir,
+                            *os.path.relpath(urllib.parse.unquote(path[7:]), old_dir).split(os.path.sep)))
              else:
                  return path
          else:
@@ -124,7 +124,8 @@ Remap(s, old, new) ==
   IF HasColonSlash(s)
   THEN IF Scheme(s) = Chars("file")
        \* path[7:], NOT urlsplit(path).path: a literal "#" or "?" is an ordinary character of the name
-       THEN FileScheme \o JoinDir(new, RelParts(Unquote(Drop(s, 7)), old))
+       \* decoded, remapped and encoded again
+       THEN FileScheme \o Quote(JoinDir(new, RelParts(Unquote(Drop(s, 7)), old)))
        ELSE s
   ELSE JoinDir(new, RelParts(s, old))                 \* a plain path is not percent-decoded
 
@@ -155,13 +156,8 @@ Same(kind, got, want) == IF kind \in {"loc", "locq"} /\ ~Canonical(want)
                          ELSE got = want
 
 \* why the transcribed function deviates (characterisation checked by TLC on the model):
-\*   - a plain path that contains ":/" is taken for a URL of an unknown scheme and returned unchanged;
-\*   - percent sequences of file:// URLs are decoded and not encoded again: visible on canonical URLs
-\*     (a non-canonical URL is only compared up to percent-decoding)
-\*     (there, the decoded URL must not decode any further: file:///d/%%414 -> file:///n/%A4 is another file)
+\*   - a plain path that contains ":/" is taken for a URL of an unknown scheme and returned unchanged.
 Class(kind, v) == IF kind = "path" /\ HasColonSlash(v) THEN "colon-slash-in-name:not-remapped"
-                  ELSE IF kind \in {"loc", "locq"} /\ Canonical(v) /\ Unquote(v) # v THEN "percent-sequence-decoded"
-                  ELSE IF kind \in {"loc", "locq"} /\ ~Canonical(v) /\ Unquote(Unquote(v)) # Unquote(v) THEN "percent-sequence-decoded"
                   ELSE "none"
 
 \* everything about one (kind, relative part, directory pair), computed once
